@@ -60,7 +60,7 @@ def common_oracle(case, obs, name, tolerance_check):
         pts = case['pts']
         for i in range(n):
             d = min(seg_dist(pts[i], pts[a], pts[b]) for a, b in zip(k, k[1:])) if len(k) > 1 else seg_dist(pts[i], pts[k[0]], pts[k[0]])
-            if d > case['eps'] * (1 + 1e-9) + 1e-12:
+            if d > case['eps'] * (1 + 1e-9) + 1e-12 + 2e-15 * max(abs(v) for p in pts for v in p):      # (last term: what coordinates of that magnitude can resolve, 2e-8 at 7e6)
                 return '%s: input fix %d is %r away from the simplified polyline %r, tolerance %r' % (name, i, d, k, case['eps'])
     return None
 
@@ -132,7 +132,7 @@ def gen_dp(rng, n, tier):
             step = rng.choice([0.05, 0.25, 0.5]); k = rng.randint(5, 15); ang = rng.uniform(0, math.pi)
             pts = []
             for i in range(k):
-                w = rng.choice([0.0, 0.004, -0.003, 0.006, -0.005, 0.002])
+                w = rng.choice([0.0, 0.0041, -0.0033, 0.0062, -0.0047, 0.0023])        # (no exact tie with the tolerances)
                 pts.append([X0 + step * i * math.cos(ang) - w * math.sin(ang), Y0 + step * i * math.sin(ang) + w * math.cos(ang)])
             eps = rng.choice([0.001, 0.002, 0.003])
         out.append({'pts': pts, 'eps': eps, 'tmode': rng.choice(['inc', 'inc', 'equal', 'dec', 'shuffle'])})
